@@ -582,10 +582,11 @@ package ast
 //@   waive typeinv-exit the typing pass (PostProcess, modifies *) does not touch the listener, which is not used again after getQuery
 //@   modifies *
 //@ func Parse
-//@   props C10
+//@   props C10 C18
 //@   requires symbolTypes != nil
 //@   assume BoolNodeTrue != nil
 //@   modifies *
+//@   ensures[an-empty-filter-gets-a-query-of-its-own] query == "" ==> result1 == nil && result0 != nil && fresh(result0)
 //@ func NewAndExprNode
 //@   props C10
 //@   requires left != nil && right != nil
